@@ -19,6 +19,7 @@ CONSTANTS
   Order <- OrderAsIs
   CheckAccepts = TRUE
   SimCommits = FALSE
+  NextTwoLoads = FALSE
 SYMMETRY Sym
 INVARIANT NeverReorgObserved
 CHECK_DEADLOCK FALSE
